@@ -8,9 +8,11 @@ package c17
 import (
 	"context"
 	"fmt"
+	"runtime"
 	"runtime/debug"
 	"sort"
 	"strings"
+	"syscall"
 	"testing"
 	"testing/synctest"
 	"time"
@@ -74,12 +76,13 @@ const (
 	opAdvance                // Flag: 0 1s, 1 25s (a resync period), 2 skew+2s
 	opCliSync                // S: client, Sp
 	opSubCloseRace           // S: stream, Sp, P; Flag: 0 stream dies while its subscribe is parked before the interest lock, 1 peer closes meanwhile
+	opSubTagRace             // S: stream, Sp, P; Flag%5: what happens while its subscribe is parked at tag registration (0 context cancel, 1 peer close, 2 evict its account, 3 close space, 4 nothing); Flag&8: no sibling
 	nOps
 )
 
 var opNames = []string{"raw-open", "raw-subscribe", "raw-unsubscribe", "raw-publish", "raw-close", "client-subscribe",
 	"client-unsubscribe", "client-publish", "client-stream-break", "evict", "revalidate", "set-member", "relay-close-space",
-	"client-close-space", "advance", "client-sync-interest", "subscribe-vs-close"}
+	"client-close-space", "advance", "client-sync-interest", "subscribe-vs-close", "subscribe-parked-at-tagging"}
 
 type Op struct {
 	K     int     `json:"k"`
@@ -612,8 +615,117 @@ func (w *world) apply(i int, op Op) error {
 			w.classes["close-vs-subscribe"] = true
 		}
 		return w.settle()
+
+	case opSubTagRace:
+		return w.subTagRace(op)
 	}
 	return nil
+}
+
+// realNow is the wall clock (the bubble's time.Now is fake and does not advance while a
+// goroutine waits for a mutex).
+func realNow() int64 {
+	var tv syscall.Timeval
+	_ = syscall.Gettimeofday(&tv)
+	return tv.Sec*1e6 + int64(tv.Usec)
+}
+
+// subTagRace: another stream holds the same patterns; the chosen stream's subscribe is
+// parked at the pool's AddTagsCtx — its interest is recorded, its tags are not — and a
+// generated event (stream death, peer close, eviction of its account, close-space,
+// nothing) is scheduled into that window if the engine leaves one. An engine that keeps
+// its interest lock across the tagging has no such window: a probe that needs the lock
+// does not return while the subscribe is parked, and the event then simply follows the
+// subscribe. Either way the final state must be the one of "subscribe, then event".
+func (w *world) subTagRace(op Op) error {
+	l := w.pickRaw(op.S)
+	if l == nil || len(op.P) == 0 {
+		return nil
+	}
+	space, pats := goodSpace(op.Sp), renderAll(op.P)
+	if op.Flag&8 == 0 {
+		if sib := w.pickRaw(op.S + 1); sib != nil && sib != l {
+			if err := w.push(sib, wrapSub(space, pats)); err != nil {
+				return err
+			}
+			if err := w.settle(); err != nil {
+				return err
+			}
+		}
+	}
+	g := &gate{link: l, ch: make(chan struct{})}
+	w.mu.Lock()
+	w.tagGate = g
+	w.mu.Unlock()
+	sub := wrapSub(space, pats)
+	b, _, err := encode(sub)
+	if err != nil {
+		return fmt.Errorf("HARNESS: %w", err)
+	}
+	l.toSrv <- b // not logged: the reference table is updated by hand, in the order below
+	synctest.Wait()
+	w.mu.Lock()
+	hit := g.hit
+	w.mu.Unlock()
+
+	event := func() {
+		switch mod(op.Flag&7, 5) {
+		case 0:
+			l.srvCancel()
+		case 1:
+			l.close()
+		case 2:
+			if l.acc >= 0 {
+				w.relay.svc.EvictMember(space, accts[l.acc].pub)
+			}
+		case 3:
+			w.relay.svc.CloseSpace(space)
+		}
+	}
+	window := false
+	if hit {
+		// does anything that needs the interest lock get through while the subscribe is parked?
+		probed := make(chan struct{})
+		go func() {
+			w.relay.svc.EvictMember("c17-no-such-space", n2Acc.pub) // takes the lock, touches nothing
+			close(probed)
+		}()
+		for t0 := realNow(); realNow()-t0 < 3000 && !window; {
+			select {
+			case <-probed:
+				window = true
+			default:
+				runtime.Gosched()
+			}
+		}
+		w.classes["subscribe-parked-at-tagging"] = true
+	}
+	if window {
+		w.classes["tagging-window-open"] = true
+		event()
+		synctest.Wait() // the event has fully happened; the subscribe is still parked
+	}
+	w.mu.Lock()
+	w.tagGate = nil
+	w.mu.Unlock()
+	close(g.ch)
+	synctest.Wait()
+	if !window {
+		event()
+	}
+	// reference: subscribe, then the event
+	w.modelSubscribe(l, sub.GetSubscribe())
+	switch mod(op.Flag&7, 5) {
+	case 0, 1:
+		w.modelCloseLink(l)
+	case 2:
+		if l.acc >= 0 {
+			w.modelDropSpaceWhere(space, func(x *link) bool { return x.acc == l.acc })
+		}
+	case 3:
+		w.modelDropSpaceWhere(space, func(*link) bool { return true })
+	}
+	return w.settle()
 }
 
 // teardown withdraws everything that is still registered, entity by entity, in the
